@@ -392,7 +392,7 @@ fn gen_op(r: &mut Rng, m: &BTreeMap<String, MNode>) -> Op {
             let n = r.range(1, 40) as usize;
             Op::Write(filep(r), r.below(30), r.bytes(n))
         }
-        11 => Op::Chmod(anyp(r), *r.pick(&[0o600u32, 0o644, 0o755, 0o700, 0o444])),
+        11 => Op::Chmod(anyp(r), *r.pick(&[0o600u32, 0o644, 0o755, 0o700, 0o444, 0o1777])),
         12 => {
             if r.chance(1, 3) {
                 Op::OpenTrunc(filep(r), *r.pick(&[libc::O_RDONLY, libc::O_WRONLY, libc::O_RDWR]))
